@@ -1,9 +1,13 @@
 #!/bin/sh
-# Offline setup: nothing is fetched. Verifies the toolchain the checks need.
+# Offline setup: nothing is fetched. Verifies the toolchain the checks need and
+# builds the one compiled helper (the scripted command of C10).
 set -e
 cd "$(dirname "$0")"
 command -v tlc >/dev/null
 command -v java >/dev/null
+command -v strace >/dev/null
 test -x /venv/bin/python
-/venv/bin/python -c "import sys; sys.path.insert(0,'lib'); import common" 
+mkdir -p build
+cc -O1 -o build/faultcmd cmds/faultcmd.c
+/venv/bin/python -c "import sys; sys.path.insert(0,'lib'); import common"
 echo "setup ok"
